@@ -5,7 +5,7 @@ evaluated structurally; everything else goes to the z3 term.  The structural rul
 contracts/strlemmas.py (discharged with cvc5/z3 on every run)."""
 import z3
 
-from .engine import Sym, Unsupported, STR, is_sym, zterm
+from .engine import Sym, Unsupported, STR, is_sym, zterm, fresh
 
 WS = set(' \t\n\r\x0b\x0c')
 
@@ -77,9 +77,11 @@ def _atoms_exclude(eng, parts, chars):
     return True
 
 
-def split(eng, v, sep, maxsplit=-1):
+def split(eng, v, sep, maxsplit=-1, charset=False):
+    """str.split(sep) for a one-character separator; with charset=True `sep` is a set of one-character separators
+    (re.split of an alternation of single characters)"""
     parts = parts_of(v)
-    if not isinstance(sep, str) or len(sep) != 1:
+    if not isinstance(sep, str) or (len(sep) != 1 and not charset) or not sep:
         raise Unsupported('structural split needs a one-character literal separator')
     if not _atoms_exclude(eng, parts, sep):
         raise Unsupported('split(%r): an atom of the string may contain the separator' % sep)
@@ -89,7 +91,7 @@ def split(eng, v, sep, maxsplit=-1):
         if isinstance(p, str):
             i = 0
             while i < len(p):
-                if p[i] == sep and (maxsplit < 0 or n < maxsplit):
+                if p[i] in sep and (maxsplit < 0 or n < maxsplit):
                     pieces.append([])
                     n += 1
                 else:
@@ -134,10 +136,13 @@ def split_whitespace(eng, v):
 
 def replace(eng, v, old, new):
     parts = parts_of(v)
-    if not isinstance(old, str) or not isinstance(new, str) or len(old) != 1:
-        raise Unsupported('structural replace needs one-character literal old')
+    if not isinstance(old, str) or not isinstance(new, str) or len(old) < 1:
+        raise Unsupported('structural replace needs a literal old')
     if not _atoms_exclude(eng, parts, old):
         raise Unsupported('replace(%r): an atom may contain it' % old)
+    if len(old) > 1 and any(not isinstance(p, str) and _maybe_empty(eng, p) for p in parts):
+        # an occurrence of a longer pattern could straddle an empty atom between two literal parts
+        raise Unsupported('replace(%r): possibly empty atom' % old)
     return build([p.replace(old, new) if isinstance(p, str) else p for p in parts])
 
 
@@ -205,3 +210,39 @@ def drop_prefix(eng, v, n):
     if parts and isinstance(parts[0], str) and len(parts[0]) >= n:
         return build([parts[0][n:]] + parts[1:])
     return None
+
+
+def strip_chars(eng, v, chars, left):
+    """str.lstrip(chars) / str.rstrip(chars) on a segmented string of unknown length.  A literal end is stripped as python
+    does; an atom at the end is split into kept part + stripped run (fresh strings tied to the atom by a string equation), the
+    path splits on whether the kept part is empty (then stripping continues into the neighbouring part)."""
+    parts = list(parts_of(v))
+    cs = z3.Union(*[z3.Re(z3.StringVal(c)) for c in chars]) if len(chars) > 1 else z3.Re(z3.StringVal(chars))
+    while parts:
+        p = parts[0] if left else parts[-1]
+        if isinstance(p, str):
+            t = p.lstrip(chars) if left else p.rstrip(chars)
+            if t:
+                parts[0 if left else -1] = t
+                break
+            parts.pop(0 if left else -1)
+            continue
+        ex = excl(eng, p) or set()
+        if set(chars) <= ex:
+            if _maybe_empty(eng, p) and eng.branch(z3.Length(p.z) == 0):
+                parts.pop(0 if left else -1)
+                continue
+            break
+        keep, run = fresh(STR, 'kept'), fresh(STR, 'stripped')
+        eng.assume(p.z == (z3.Concat(run.z, keep.z) if left else z3.Concat(keep.z, run.z)))
+        eng.assume(z3.InRe(run.z, z3.Star(cs)))
+        edge = z3.SubString(keep.z, 0, 1) if left else z3.SubString(keep.z, z3.Length(keep.z) - 1, 1)
+        eng.assume(z3.Or(z3.Length(keep.z) == 0, z3.Not(z3.InRe(edge, cs))))
+        if eng.branch(z3.Length(keep.z) == 0):
+            parts.pop(0 if left else -1)
+            continue
+        if getattr(p, 'src', None) is None:
+            register_atom(eng, keep, ex)
+        parts[0 if left else -1] = keep
+        break
+    return build(parts)
